@@ -62,6 +62,10 @@ def trace_events(p, ai):
             evs.append({"e": "stop", "file": s["file"], "line": s["line"], "views": s["views"]})
     if not finished:
         evs.append({"e": "timeout", "minsteps": minsteps})
+    elif "exec_views" in run:
+        evs.append({"e": "final2", "views": run["exec_views"], "done": run["exec_done"]})
+    if finished and "cli" in p:
+        evs.append({"e": "cli", "vars": p["cli"]})
     return evs
 
 
@@ -174,3 +178,45 @@ def refine(chk, th, progs, name="refine", limit=4000, timeout=1500):
                           % (res.violated, culprit and culprit["seed"], json.dumps(culprit and culprit["files"])[:1200], tlc_counterexample(res, 1500)),
                           {"files": culprit and culprit["files"], "main": culprit and culprit["main"], "violated": res.violated})
     return len(sel)
+
+
+def run_cli(chk, progs, limit=60):
+    """run the repository's command line tool (built by the harness project as theo_cli) on programs that are known to halt;
+    attaches p['cli'] = [[name, value]...] as printed after 'variables after execution:'"""
+    import subprocess
+    import tempfile
+    from common import BUILD
+    exe = os.path.join(BUILD, "plain", "theo_cli")
+    if not os.path.exists(exe):
+        raise Broken("theo_cli was not built")
+    n = 0
+    for p in progs:
+        if n >= limit:
+            break
+        if "run" not in p or not p["run"].get("ok") or not p["run"].get("finished"):
+            continue
+        with tempfile.TemporaryDirectory(dir=rundir(chk.pid, "cli")) as d:
+            for name, text in p["files"].items():
+                with open(os.path.join(d, name), "w") as f:
+                    f.write(text)
+            names = [p["main"]] + sorted(x for x in p["files"] if x != p["main"])
+            try:
+                r = subprocess.run([exe] + names, cwd=d, capture_output=True, text=True, timeout=60)
+            except subprocess.TimeoutExpired:
+                chk.violation("cli:hang:seed%s" % p["seed"], "bin/theo did not finish on a program whose stepping run halts", {"files": p["files"]})
+                continue
+            if r.returncode != 0 or "variables after execution:" not in r.stdout:
+                chk.violation("cli:fail:seed%s" % p["seed"], "bin/theo failed (exit %s) on an accepted, halting program: %s" % (r.returncode, r.stdout[-500:]),
+                              {"files": p["files"]})
+                continue
+            vars_ = []
+            for line in r.stdout.split("variables after execution:")[1].strip().splitlines():
+                if ": " in line:
+                    k, v = line.rsplit(": ", 1)
+                    try:
+                        vars_.append([k, int(v)])
+                    except ValueError:
+                        pass
+            p["cli"] = vars_
+            n += 1
+    return n
